@@ -129,6 +129,21 @@ static void restore(uint64_t a, uint64_t len)
   memcpy(g_mem + lo, g_bg.data() + lo, hi - lo);
 }
 
+// a source cell for sandbox-to-sandbox copies whose neighbourhood differs from the destination's background on both
+// sides, so that a copy of the wrong length is visible in the destination's neighbourhood
+static void decorate(uint64_t src, const uint8_t* obj, uint64_t len)
+{
+  for (int i = 0; i < 16; i++) {
+    g_mem[src - 16 + i] = (uint8_t)(0x31 + 7 * i);
+    g_mem[src + len + i] = (uint8_t)(0x42 + 5 * i);
+  }
+  memcpy(g_mem + src, obj, len);
+}
+static void undecorate(uint64_t src, uint64_t len)
+{
+  memcpy(g_mem + src - 16, g_bg.data() + src - 16, len + 32);
+}
+
 static void enc_int(i128 v, int w, uint8_t* out)
 {
   u128 u = (u128)v;
@@ -220,10 +235,10 @@ static void int_type(uint64_t& blk)
                 return;
               }
               uint64_t src = a < 0x8000 ? 0xC000 : 0x4000;
-              memcpy(g_mem + src, want, w);
+              decorate(src, want, w);
               auto q = ptr_at<T>(src);
               *p = *q;
-              memcpy(g_mem + src, g_bg.data() + src, w);
+              undecorate(src, w);
             }
           });
           if (!exists) continue;
@@ -440,6 +455,20 @@ static void pointer_types(uint64_t& blk)
         if (o == O_CRASH) viol("C07 op=load type=long[3] kind=reads-past-object", kase, "array load faulted (12-byte guest array ending at " + std::to_string(a + 12) + ")");
         else if (o == O_ABORT) viol("C07 op=load type=long[3] kind=spurious-abort", kase, "array load aborted");
         else if (g0 != 0x11223344L || g1 != -2 || g2 != 0x7fffffffL || e1 != -2) viol("C07 op=load type=long[3] kind=decoding", kase, "array elements decoded wrongly");
+        // sandbox-to-sandbox copy of the whole array: exactly the 12 guest bytes move
+        {
+          restore(a, 12);
+          uint64_t src = a < 0x8000 ? 0xC000 : 0x4000;
+          decorate(src, want, 12);
+          auto qa = ptr_at<long[3]>(src);
+          o = guarded([&] { *pa = *qa; });
+          undecorate(src, 12);
+          n_eval++;
+          if (a + 12 == kSize) n_nontriv++;
+          if (o == O_CRASH) viol("C07 op=store type=long[3] form=tainted_volatile kind=crash", kase, "sandbox-to-sandbox array copy faulted (destination ends at " + std::to_string(a + 12) + ")");
+          else if (o != O_RET) viol("C07 op=store type=long[3] form=tainted_volatile kind=spurious-abort", kase, "sandbox-to-sandbox array copy aborted");
+          else if (!region_matches(a, 12, want, why)) viol("C07 op=store type=long[3] form=tainted_volatile kind=bytes", kase, why);
+        }
         // element store
         o = guarded([&] { (*pa)[2] = 5L; });
         enc_int(5, 4, want + 8);
@@ -479,6 +508,18 @@ static void pointer_types(uint64_t& blk)
         n_eval++;
         if (o != O_RET) viol("C07 op=load type=int*[2] kind=abort-or-crash", kase, "array-of-pointers load did not return");
         else if (b0 != g_base + 0x2222 || b1 != 0) viol("C07 op=load type=int*[2] kind=decoding", kase, "array-of-pointers decoded wrongly");
+        {
+          restore(a, 4);
+          uint64_t src = a < 0x8000 ? 0xC000 : 0x4000;
+          decorate(src, want, 4);
+          auto qa = ptr_at<int* [2]>(src);
+          o = guarded([&] { *pa = *qa; });
+          undecorate(src, 4);
+          n_eval++;
+          if (o == O_CRASH) viol("C07 op=store type=int*[2] form=tainted_volatile kind=crash", kase, "sandbox-to-sandbox array-of-pointers copy faulted");
+          else if (o != O_RET) viol("C07 op=store type=int*[2] form=tainted_volatile kind=spurious-abort", kase, "sandbox-to-sandbox array-of-pointers copy aborted");
+          else if (!region_matches(a, 4, want, why)) viol("C07 op=store type=int*[2] form=tainted_volatile kind=bytes", kase, why);
+        }
         restore(a, 4);
       }
     }
